@@ -108,26 +108,23 @@ theorem strResize0_error {ans : Nat → Bool} {id : Nat} {v : Vector} {n : Nat} 
   · rw [if_pos h0] at hr
     injection hr with hr
     exact ⟨hr.symm, Or.inl ((addW_one_eq_zero_iff hn).mp h0)⟩
-  · rw [if_neg h0] at hr
-    have ha := addW_one_of_ne_zero hn h0
-    rw [ha] at hr
+  · rw [if_neg h0, addW_one_of_ne_zero hn h0] at hr
     have hn1 : n + 1 < W := by
       have := (not_congr (addW_one_eq_zero_iff hn)).mp h0
       rw [W_eq] at *; rw [SIZE_MAX_eq] at this; omega
     cases hrz : resize ans id v (n + 1) with
     | error st' =>
-      rw [hrz] at hr
+      rw [hrz, andThen_error] at hr
       injection hr with hr; subst hr
       refine ⟨resize_error_is_abort hrz, Or.inr ?_⟩
       intro hcg
       obtain ⟨v', evs, hok⟩ := (resize_ok_iff (id := id) h.inv hn1).mpr hcg
       rw [hok] at hrz; cases hrz
     | ok p =>
-      obtain ⟨v1, e⟩ := p
-      rw [hrz] at hr
-      dsimp only at hr
-      obtain ⟨hok1, hc1, _⟩ := resize_nox h hn1 hrz
-      rw [rawSet_in hok1.inv (by omega)] at hr
+      rw [hrz, andThen_ok] at hr
+      have hrz' : resize ans id v (n + 1) = .ok (p.1, p.2) := hrz
+      obtain ⟨hok1, hc1, _⟩ := resize_nox h hn1 hrz'
+      rw [rawSet_in hok1.inv (by omega), andThen_ok] at hr
       cases hr
 
 theorem strResize0_ok {ans : Nat → Bool} {id : Nat} {v v' : Vector} {n : Nat} {evs : List Ev}
@@ -137,28 +134,25 @@ theorem strResize0_ok {ans : Nat → Bool} {id : Nat} {v v' : Vector} {n : Nat} 
   unfold strResize0 at hr
   by_cases h0 : addW n 1 = 0
   · rw [if_pos h0] at hr; cases hr
-  · rw [if_neg h0] at hr
-    have ha := addW_one_of_ne_zero hn h0
-    rw [ha] at hr
+  · rw [if_neg h0, addW_one_of_ne_zero hn h0] at hr
     have hne : n ≠ SIZE_MAX := (not_congr (addW_one_eq_zero_iff hn)).mp h0
     have hn1 : n + 1 < W := by
       rw [W_eq] at *; rw [SIZE_MAX_eq] at hne; omega
     cases hrz : resize ans id v (n + 1) with
-    | error st' => rw [hrz] at hr; cases hr
+    | error st' => rw [hrz, andThen_error] at hr; cases hr
     | ok p =>
-      obtain ⟨v1, e⟩ := p
-      rw [hrz] at hr
-      dsimp only at hr
-      obtain ⟨hok1, hc1, he1, hel1, hx1, hx2⟩ := resize_nox h hn1 hrz
-      rw [rawSet_in hok1.inv (by omega)] at hr
+      rw [hrz, andThen_ok] at hr
+      have hrz' : resize ans id v (n + 1) = .ok (p.1, p.2) := hrz
+      obtain ⟨hok1, hc1, he1, hel1, hx1, hx2⟩ := resize_nox h hn1 hrz'
+      rw [rawSet_in hok1.inv (by omega), andThen_ok] at hr
       injection hr with hr; injection hr with h1 h2; subst h1; subst h2
-      have hcg : canGrow ans v (n + 1) := (resize_ok_iff (id := id) h.inv hn1).mp ⟨_, _, hrz⟩
-      have hl1 : v1.elems.length = n + 1 := by rw [hok1.inv.len, hc1]
+      have hcg : canGrow ans v (n + 1) := (resize_ok_iff (id := id) h.inv hn1).mp ⟨_, _, hrz'⟩
+      have hl1 : p.1.elems.length = n + 1 := by rw [hok1.inv.len, hc1]
       refine ⟨⟨inv_with_elems hok1.inv (by rw [writeAt_length]; exact hok1.inv.len), hok1.nocons, hok1.nodest⟩,
               hc1, he1, ?_, hne, hcg, hx1, hx2⟩
-      show writeAt v1.elems n [0] = _
+      show writeAt p.1.elems n [0] = _
       rw [writeAt_in (by simp; omega)]
-      have hd : v1.elems.drop (n + 1) = [] := List.drop_eq_nil_of_le (by omega)
+      have hd : p.1.elems.drop (n + 1) = [] := List.drop_eq_nil_of_le (by omega)
       simp only [List.length_singleton, hd, List.append_nil]
       rw [hel1, ← padTo_take (Nat.le_succ n), ← padTo_take (Nat.le_refl (n + 1)), List.take_take]
       congr 2
@@ -280,27 +274,28 @@ theorem strResize_refines {ans : Nat → Bool} {id : Nat} {v v' : Vector} {s : L
   unfold strResize at hr
   rw [h.size] at hr
   cases hr0 : strResize0 ans id v n with
-  | error st => rw [hr0] at hr; cases hr
+  | error st => rw [hr0, andThen_error] at hr; cases hr
   | ok p =>
-    obtain ⟨v1, e⟩ := p
-    rw [hr0] at hr
-    dsimp only at hr
-    obtain ⟨hok1, hc1, he1, hel1, _⟩ := strResize0_ok h.ok hn hr0
+    rw [hr0, andThen_ok] at hr
+    have hr0' : strResize0 ans id v n = .ok (p.1, p.2) := hr0
+    obtain ⟨hok1, hc1, he1, hel1, _⟩ := strResize0_ok h.ok hn hr0'
     obtain ⟨t, het, htl, _⟩ := h.elems_eq
     rw [het] at hel1
     by_cases hle : n ≤ s.length
     · have h0 : n - s.length = 0 := by omega
       rw [h0] at hr
       simp only [fillLoop] at hr
+      rw [andThen_ok] at hr
       injection hr with hr; injection hr with h1 _; subst h1
       refine ⟨⟨hok1, Or.inr ?_⟩, he1, by omega⟩
       rw [hel1, padTake_rep_le hle, h0]
       simp
     · obtain ⟨mid, hmid, hml⟩ := padTake_rep_gt (n := n) (s := s) (t := t) (by omega) htl
       rw [hmid] at hel1
-      rw [fillLoop_in hok1.inv (n - s.length) hel1 hml] at hr
+      rw [fillLoop_in hok1.inv (n - s.length) hel1 hml, andThen_ok] at hr
       injection hr with hr; injection hr with h1 _; subst h1
-      refine ⟨⟨⟨inv_with_elems hok1.inv ?_, hok1.nocons, hok1.nodest⟩, Or.inr ?_⟩, he1, by show 0 < v1.count; omega⟩
+      refine ⟨⟨⟨inv_with_elems hok1.inv ?_, hok1.nocons, hok1.nodest⟩, Or.inr ?_⟩, he1,
+              by show 0 < p.1.count; omega⟩
       · simp; omega
       · show s ++ _ ++ [0] = _
         rw [List.take_of_length_le (by omega)]
@@ -312,24 +307,25 @@ theorem strResize_error {ans : Nat → Bool} {id : Nat} {v : Vector} {s : List N
   rw [h.size] at hr
   cases hr0 : strResize0 ans id v n with
   | error st' =>
-    rw [hr0] at hr
+    rw [hr0, andThen_error] at hr
     injection hr with hr; subst hr
     exact strResize0_error h.ok hn hr0
   | ok p =>
-    obtain ⟨v1, e⟩ := p
     exfalso
-    rw [hr0] at hr
-    dsimp only at hr
-    obtain ⟨hok1, hc1, he1, hel1, _⟩ := strResize0_ok h.ok hn hr0
+    rw [hr0, andThen_ok] at hr
+    have hr0' : strResize0 ans id v n = .ok (p.1, p.2) := hr0
+    obtain ⟨hok1, hc1, he1, hel1, _⟩ := strResize0_ok h.ok hn hr0'
     obtain ⟨t, het, htl, _⟩ := h.elems_eq
     rw [het] at hel1
     by_cases hle : n ≤ s.length
     · have h0 : n - s.length = 0 := by omega
       rw [h0] at hr
-      simp [fillLoop] at hr
+      simp only [fillLoop] at hr
+      rw [andThen_ok] at hr
+      cases hr
     · obtain ⟨mid, hmid, hml⟩ := padTake_rep_gt (n := n) (s := s) (t := t) (by omega) htl
       rw [hmid] at hel1
-      rw [fillLoop_in hok1.inv (n - s.length) hel1 hml] at hr
+      rw [fillLoop_in hok1.inv (n - s.length) hel1 hml, andThen_ok] at hr
       cases hr
 
 /-- C10 (resize): it succeeds exactly when `n + 1` is representable and the
@@ -341,9 +337,10 @@ theorem strResize_ok_iff {ans : Nat → Bool} {id : Nat} {v : Vector} {s : List 
   · rintro ⟨v', evs, hr⟩
     unfold strResize at hr
     cases hr0 : strResize0 ans id v n with
-    | error st => rw [hr0] at hr; cases hr
+    | error st => rw [hr0, andThen_error] at hr; cases hr
     | ok p =>
-      obtain ⟨_, _, _, _, h1, h2, _⟩ := strResize0_ok h.ok hn hr0
+      have hr0' : strResize0 ans id v n = .ok (p.1, p.2) := hr0
+      obtain ⟨_, _, _, _, h1, h2, _⟩ := strResize0_ok h.ok hn hr0'
       exact ⟨h1, h2⟩
   · rintro ⟨h1, h2⟩
     cases hr : strResize ans id v n with
@@ -355,6 +352,50 @@ theorem strResize_ok_iff {ans : Nat → Bool} {id : Nat} {v : Vector} {s : List 
 
 /-! ### insertion -/
 
+/-- the memmove of `prep_insert` after the string has been grown to `sl + len` characters -/
+theorem prep_move {v v1 : Vector} {sl pos len : Nat} (h1 : Inv v1) (he : v1.esz = v.esz)
+    (hc : v1.count = sl + len + 1) (hpos : pos ≤ sl) (hsl : sl < W) (hsum : sl + len < W) :
+    rawMove v1 (addW pos len) pos (mulW (subW sl pos) v.esz) =
+      .ok { v1 with elems := writeAt v1.elems (pos + len) (readAt v1.elems pos (sl - pos)) } := by
+  have hk : mulW (subW sl pos) v.esz = (sl - pos) * v1.esz := by
+    rw [subW_of_le hpos hsl, he]
+    rw [← he]
+    exact mulW_of_lt (h1.mul_lt_W (by omega))
+  have hpl : addW pos len = pos + len := addW_of_lt (by omega)
+  rw [hk, hpl, rawMove_in h1 (by omega) (by omega)]
+
+/-- list algebra of that memmove: `xs = s ++ mid ++ [0]` with `len` slots of `mid` -/
+theorem prep_move_list {s mid : List Nat} {pos : Nat} (hpos : pos ≤ s.length) :
+    ∃ junk : List Nat, junk.length = mid.length ∧
+      writeAt (s ++ mid ++ [0]) (pos + mid.length) (readAt (s ++ mid ++ [0]) pos (s.length - pos)) =
+        s.take pos ++ junk ++ (s.drop pos ++ [0]) := by
+  have hsplit : s ++ mid ++ [0] = s.take pos ++ s.drop pos ++ (mid ++ [0]) := by
+    simp [List.take_append_drop]
+  have hread : readAt (s ++ mid ++ [0]) pos (s.length - pos) = s.drop pos := by
+    rw [hsplit]
+    have h1 : pos = (s.take pos).length := by simp; omega
+    have h2 : s.length - pos = (s.drop pos).length := by simp
+    rw [h2]
+    conv => lhs; arg 2; rw [h1]
+    exact readAt_split
+  rw [hread, writeAt_in (by simp; omega)]
+  refine ⟨((s ++ mid ++ [0]).take (pos + mid.length)).drop pos, ?_, ?_⟩
+  · simp; omega
+  · have e1 : (s ++ mid ++ [0]).drop (pos + mid.length + (s.drop pos).length) = [0] := by
+      have : pos + mid.length + (s.drop pos).length = (s ++ mid).length := by simp; omega
+      rw [this, List.drop_left']
+      rfl
+    have e2 : (s ++ mid ++ [0]).take (pos + mid.length) =
+        s.take pos ++ ((s ++ mid ++ [0]).take (pos + mid.length)).drop pos := by
+      have : ((s ++ mid ++ [0]).take (pos + mid.length)).take pos = s.take pos := by
+        rw [List.take_take]
+        have : min pos (pos + mid.length) = pos := by omega
+        rw [this, List.append_assoc, List.take_append_of_le_length hpos]
+      rw [← this, List.take_append_drop]
+    rw [e1]
+    conv => lhs; rw [e2]
+    simp
+
 /-- the state `prep_insert` hands to its caller: the tail has been moved up by
 `len`, the `len` slots at `pos` hold junk that the caller overwrites -/
 theorem prepInsert_ok {ans : Nat → Bool} {id : Nat} {v v' : Vector} {s : List Nat} {pos len : Nat}
@@ -363,7 +404,7 @@ theorem prepInsert_ok {ans : Nat → Bool} {id : Nat} {v v' : Vector} {s : List 
     (len = 0 → v' = v) ∧
     (0 < len → s.length + len < SIZE_MAX ∧ canGrow ans v (s.length + len + 1) ∧
        v'.count = s.length + len + 1 ∧
-       ∃ junk, junk.length = len ∧ v'.elems = s.take pos ++ junk ++ (s.drop pos ++ [0])) := by
+       ∃ junk : List Nat, junk.length = len ∧ v'.elems = s.take pos ++ junk ++ (s.drop pos ++ [0])) := by
   unfold prepInsert at hr
   rw [h.size] at hr
   by_cases hp : pos > s.length
@@ -372,7 +413,6 @@ theorem prepInsert_ok {ans : Nat → Bool} {id : Nat} {v v' : Vector} {s : List 
     have hpos : pos ≤ s.length := by omega
     by_cases hl : len > 0
     · rw [if_pos hl] at hr
-      dsimp only at hr
       by_cases hov : len > SIZE_MAX - s.length
       · rw [if_pos hov] at hr; cases hr
       · rw [if_neg hov] at hr
@@ -380,57 +420,26 @@ theorem prepInsert_ok {ans : Nat → Bool} {id : Nat} {v v' : Vector} {s : List 
         have hsum : s.length + len < W := by rw [W_eq] at *; rw [SIZE_MAX_eq] at hov; omega
         rw [addW_of_lt hsum] at hr
         cases hr0 : strResize0 ans id v (s.length + len) with
-        | error st => rw [hr0] at hr; cases hr
+        | error st => rw [hr0, andThen_error] at hr; cases hr
         | ok p =>
-          obtain ⟨v1, e⟩ := p
-          rw [hr0] at hr
-          dsimp only at hr
-          obtain ⟨hok1, hc1, he1, hel1, hne, hcg, _⟩ := strResize0_ok h.ok hsum hr0
+          rw [hr0, andThen_ok] at hr
+          have hr0' : strResize0 ans id v (s.length + len) = .ok (p.1, p.2) := hr0
+          obtain ⟨hok1, hc1, he1, hel1, hne, hcg, _⟩ := strResize0_ok h.ok hsum hr0'
           obtain ⟨t, het, htl, _⟩ := h.elems_eq
           rw [het] at hel1
           obtain ⟨mid, hmid, hml⟩ := padTake_rep_gt (n := s.length + len) (s := s) (t := t) (by omega) htl
           rw [hmid] at hel1
           have hml' : mid.length = len := by omega
-          -- the memmove
-          have hk : mulW (subW s.length pos) v.esz = (s.length - pos) * v1.esz := by
-            rw [subW_of_le hpos hsl, he1]
-            rw [← he1]
-            exact mulW_of_lt (hok1.inv.mul_lt_W (by omega))
-          have hpl : addW pos len = pos + len := addW_of_lt (by omega)
-          rw [hk, hpl, rawMove_in hok1.inv (by omega) (by omega)] at hr
+          rw [prep_move hok1.inv he1 hc1 hpos hsl hsum, andThen_ok] at hr
           injection hr with hr; injection hr with h1 _; subst h1
           refine ⟨hpos, ⟨inv_with_elems hok1.inv (by rw [writeAt_length]; exact hok1.inv.len),
                          hok1.nocons, hok1.nodest⟩, he1, by omega, ?_⟩
           intro _
           refine ⟨by rw [SIZE_MAX_eq] at *; rw [W_eq] at hsum; omega, hcg, hc1, ?_⟩
-          -- list algebra
-          have hsplit : s ++ mid ++ [0] = s.take pos ++ s.drop pos ++ (mid ++ [0]) := by
-            simp [List.take_append_drop]
-          have hread : readAt v1.elems pos (s.length - pos) = s.drop pos := by
-            rw [hel1, hsplit]
-            have h1 : pos = (s.take pos).length := by simp; omega
-            have h2 : s.length - pos = (s.drop pos).length := by simp
-            rw [h2]
-            conv => lhs; arg 2; rw [h1]
-            exact readAt_split
-          show ∃ junk : List Nat, junk.length = len ∧ writeAt v1.elems (pos + len) (readAt v1.elems pos (s.length - pos)) = _
-          rw [hread, writeAt_in (by rw [hel1]; simp; omega)]
-          refine ⟨(v1.elems.take (pos + len)).drop pos, ?_, ?_⟩
-          · rw [hel1]; simp; omega
-          · have e1 : v1.elems.drop (pos + len + (s.drop pos).length) = [0] := by
-              rw [hel1]
-              have : pos + len + (s.drop pos).length = (s ++ mid).length := by simp; omega
-              rw [this, List.drop_left']
-              rfl
-            have e2 : v1.elems.take (pos + len) = s.take pos ++ (v1.elems.take (pos + len)).drop pos := by
-              have : (v1.elems.take (pos + len)).take pos = s.take pos := by
-                rw [List.take_take, hel1]
-                have : min pos (pos + len) = pos := by omega
-                rw [this, List.append_assoc, List.take_append_of_le_length hpos]
-              rw [← this, List.take_append_drop]
-            rw [e1]
-            conv => lhs; rw [e2]
-            simp
+          obtain ⟨junk, hjl, hj⟩ := prep_move_list (s := s) (mid := mid) hpos
+          refine ⟨junk, by omega, ?_⟩
+          show writeAt p.1.elems (pos + len) (readAt p.1.elems pos (s.length - pos)) = _
+          rw [hel1, ← hml', hj]
     · rw [if_neg hl] at hr
       injection hr with hr; injection hr with h1 _; subst h1
       exact ⟨hpos, h.ok, rfl, fun _ => rfl, fun h0 => absurd h0 hl⟩
@@ -448,7 +457,6 @@ theorem prepInsert_error {ans : Nat → Bool} {id : Nat} {v : Vector} {s : List 
     have hpos : pos ≤ s.length := by omega
     by_cases hl : len > 0
     · rw [if_pos hl] at hr
-      dsimp only at hr
       by_cases hov : len > SIZE_MAX - s.length
       · rw [if_pos hov] at hr
         injection hr with hr
@@ -459,7 +467,7 @@ theorem prepInsert_error {ans : Nat → Bool} {id : Nat} {v : Vector} {s : List 
         rw [addW_of_lt hsum] at hr
         cases hr0 : strResize0 ans id v (s.length + len) with
         | error st' =>
-          rw [hr0] at hr
+          rw [hr0, andThen_error] at hr
           injection hr with hr; subst hr
           obtain ⟨h1, h2⟩ := strResize0_error h.ok hsum hr0
           refine ⟨h1, Or.inr ⟨hl, ?_⟩⟩
@@ -467,17 +475,11 @@ theorem prepInsert_error {ans : Nat → Bool} {id : Nat} {v : Vector} {s : List 
           · left; omega
           · right; exact h2
         | ok p =>
-          obtain ⟨v1, e⟩ := p
           exfalso
-          rw [hr0] at hr
-          dsimp only at hr
-          obtain ⟨hok1, hc1, he1, _⟩ := strResize0_ok h.ok hsum hr0
-          have hk : mulW (subW s.length pos) v.esz = (s.length - pos) * v1.esz := by
-            rw [subW_of_le hpos hsl, he1]
-            rw [← he1]
-            exact mulW_of_lt (hok1.inv.mul_lt_W (by omega))
-          have hpl : addW pos len = pos + len := addW_of_lt (by omega)
-          rw [hk, hpl, rawMove_in hok1.inv (by omega) (by omega)] at hr
+          rw [hr0, andThen_ok] at hr
+          have hr0' : strResize0 ans id v (s.length + len) = .ok (p.1, p.2) := hr0
+          obtain ⟨hok1, hc1, he1, _⟩ := strResize0_ok h.ok hsum hr0'
+          rw [prep_move hok1.inv he1 hc1 hpos hsl hsum, andThen_ok] at hr
           cases hr
     · rw [if_neg hl] at hr
       cases hr
